@@ -831,6 +831,12 @@ uh!(contains0_ttl_on_deadline, 6, op_contains::<IdH>(&cfgt(2, Some(3), false, W1
 uh!(contains0_tti_on_deadline, 6, op_contains::<IdH>(&cfgt(2, Some(3), false, W1, false, true, WO_ID, false, 4), 0, false));
 uh!(contains0_tti_1ns_before, 6, op_contains::<IdH>(&cfgt(2, Some(3), false, W1, false, true, WO_ID, false, 5), 0, false));
 uh!(contains1_live, 6, op_contains::<IdH>(&cfgt(2, Some(3), false, W1, true, true, WO_ID, false, 1), 1, false));
+// BOTH policies configured, only ONE deadline passed (each policy must be enforced on its own: tti < ttl here)
+uh!(get0_both_ttl_only_expired, 6, op_get::<IdH>(&cfgt(2, Some(3), false, W1, true, true, WO_ID, false, 2), 0, false));
+uh!(get0_both_tti_only_expired, 6, op_get::<IdH>(&cfgt(2, Some(3), false, W1, true, true, WO_ID, true, 4), 0, false));
+uh!(contains0_both_tti_only_expired, 6, op_contains::<IdH>(&cfgt(2, Some(3), false, W1, true, true, WO_ID, false, 4), 0, false));
+uh!(iter_both_ttl_only_expired, 6, op_iter::<IdH>(&cfgt(2, Some(3), false, W1, true, true, WO_ID, false, 2)));
+uh!(iter_both_tti_only_expired, 6, op_iter::<IdH>(&cfgt(2, Some(3), false, W1, true, true, WO_ID, true, 4)));
 uh!(iter_ttl_on_deadline, 6, op_iter::<IdH>(&cfgt(2, Some(3), false, W1, true, false, WO_ID, true, 2)));
 uh!(iter_tti_on_deadline, 6, op_iter::<IdH>(&cfgt(2, Some(3), false, W1, true, true, WO_ID, false, 4)));
 uh!(iter_max_dur, 6, op_iter::<IdH>(&cfgt(3, None, false, W1, true, true, WO_ID, false, 7)));
@@ -852,6 +858,8 @@ uh!(invalidate_if_ttl_m1100, 6, op_invalidate_if::<IdH>(&cfgt(2, Some(3), false,
 uh_real_purge!(purge_ttl_on_deadline_w, 6, op_evict_expired::<IdH>(&cfgt(2, Some(9), true, WT_A, true, false, WO_ID, false, 2)));
 uh_real_purge!(purge_tti_on_deadline_w, 6, op_evict_expired::<IdH>(&cfgt(2, Some(9), true, WT_A, false, true, WO_ID, false, 4)));
 uh_real_purge!(purge_both_1ns_before_w, 6, op_evict_expired::<IdH>(&cfgt(2, Some(9), true, WT_A, true, true, WO_ID, false, 3)));
+uh_real_purge!(purge_both_tti_only_w, 6, op_evict_expired::<IdH>(&cfgt(2, Some(9), true, WT_A, true, true, WO_ID, false, 4)));
+uh_real_purge!(purge_both_ttl_only_w, 6, op_evict_expired::<IdH>(&cfgt(2, Some(9), true, WT_A, true, true, WO_ID, true, 2)));
 uh_real_purge!(purge_both_zero_dur_w, 6, op_evict_expired::<IdH>(&cfgt(2, Some(9), true, WT_A, true, true, WO_ID, false, 6)));
 uh_real_purge!(purge_both_two_of_three_w, 6, op_evict_expired::<IdH>(&cfgt(3, Some(20), true, WT_A, true, true, WO_ID, false, 7)));
 // whole operations including the real purge
